@@ -59,7 +59,15 @@ class C05(Prop):
                     strict = not (fam == "hes" and 0 < hh <= 1)
                     ys = [v if v > 0 or not strict else Fraction(1, 2) for v in ys]
             ws = None if rng.random() < 0.35 else [Fraction(rng.randint(1, 5), rng.choice([1, 1, 2])) for _ in range(n)]
-            yield {"stream": "sample", "kind": kind, "h": h, "level": lv, "y": [str(v) for v in ys], "w": None if ws is None else [str(v) for v in ws]}
+            c = {"stream": "sample", "kind": kind, "h": h, "level": lv, "y": [str(v) for v in ys], "w": None if ws is None else [str(v) for v in ws]}
+            if fam != "logloss" and rng.random() < 0.2:
+                # integer-typed observations (large enough for int32 / int64 powers to overflow) scored against float constants
+                c["ydtype"] = rng.choice(["int32", "int64"])
+                top = 3000 if c["ydtype"] == "int32" else 3_000_000
+                c["y"] = [str(rng.randint(1, top)) for _ in range(n)]
+                if float(h).is_integer():
+                    c["h"] = int(h)
+            yield c
 
     def grid_and_opt(self, case):
         ys = [Fraction(v) for v in case["y"]]
@@ -107,7 +115,17 @@ class C05(Prop):
                 out["m"].append(float(sf(np.array(ys), np.full(len(ys), g), None if ws is None else np.array(ws))))
             return out
         for g in grid:
-            r = sc.call_score(case["kind"], case["h"], case["level"], ys, [g] * len(ys), ws)
+            if case.get("ydtype"):
+                import numpy as np
+                from .core import exc_class
+
+                try:
+                    sf = sc.make_sf(case["kind"], case["h"], case["level"])
+                    r = {"mean": float(sf(np.array(ys).astype(case["ydtype"]), np.full(len(ys), g), None if ws is None else np.array(ws)))}
+                except Exception as e:
+                    r = {"err": exc_class(e)}
+            else:
+                r = sc.call_score(case["kind"], case["h"], case["level"], ys, [g] * len(ys), ws)
             if "err" in r or "mean_err" in r:
                 return {"err": r.get("err", r.get("mean_err")), "at": g}
             out["m"].append(r["mean"])
